@@ -14,17 +14,15 @@ def pos? : Sx → Option Pos
 def ostyle? (st pos clear : Sx) : Option OStyle := do
   pure { toPStyle := (← style? st), pos := (← pos? pos), clear := (← clear.bool?) }
 
-/-- `inAbs`: inside an absolutely positioned box no absolutely positioned box is accepted (its placeholder would go
-to the `absolute_boxes` list of that box, not of the page: outside the grammar of stage 2a). -/
-partial def box? (inAbs : Bool) : Sx → Option OBox
+/-- Any box may be out of the flow, at any depth (round 4: also an absolutely positioned box inside another one,
+`layoutAbs`). -/
+partial def box? : Sx → Option OBox
   | .list [.atom "para", id, n, lh, st, pos, clear] => do
     let st ← ostyle? st pos clear
-    if inAbs && st.pos == .abs then none
     pure (.para (← id.nat?) (← n.nat?) (← lh.rat?) st)
   | .list [.atom "block", id, st, pos, clear, .list kids] => do
     let st ← ostyle? st pos clear
-    if inAbs && st.pos == .abs then none
-    pure (.block (← id.nat?) st (← allSome (box? (inAbs || st.pos == .abs)) kids))
+    pure (.block (← id.nat?) st (← allSome box? kids))
   | _ => none
 
 /-- The root and its single child (html, body) are static blocks. -/
@@ -67,7 +65,7 @@ def handle (cmd : String) (args : List Sx) : Option String :=
   | "pmoof", [h, ltr, b] => do
     let h ← h.rat?
     let ltr ← ltr.bool?
-    let root ← box? false b
+    let root ← box? b
     if !rootOk root then none
     let d : PMO.Doc := { pageH := h, rootLtr := ltr, root := root }
     match PMO.paginate d (2 * countBox root + 8) with
